@@ -1338,6 +1338,15 @@ class FnTranslator:
                 lit = self._find(args[0], 'StringLiteral')['value']
                 self.U.need_model('str')
                 return 'str_from_lit(%s, %d)' % (lit, self.U.literal_id(lit))
+            real = [a_ for a_ in args if a_.get('kind') != 'CXXDefaultArgExpr']
+            if len(real) == 2 and strip_ref(self.T(real[0]))[0] == 'ptr' and strip_ref(self.T(real[1]))[0] == 'int':
+                # string(const char* p, size_t n) == default string + assign(p, n)
+                self.U.need_model('str')
+                self.hit('string(ptr, n) as assign')
+                tn = self.tmp()
+                self.pre.append('%s = %s;' % (self.decl(ct, tn), self.default_value(ct)))
+                self.pre.append('str_assign_n(&%s, %s, %s);' % (tn, self.ex(real[0]), self.ex(real[1])))
+                return tn
             raise Unsupported('string constructor %s' % ctor_t)
         if ct[0] == 'rec':
             if ct[1] in self.P.exc_parent:
